@@ -319,10 +319,17 @@ pub fn def() -> PropertyDef {
 		subs: vec![
 			prop_sub("content", 80_000, 600_000, || {
 				// an issuing distribution point may be asked for with a scope and no URI at all
-				(crl_case(false, false), prop::bool::weighted(0.15))
-					.prop_map(|(mut c, no_uris)| {
+				(crl_case(false, false), prop::bool::weighted(0.15), prop::bool::weighted(0.12))
+					.prop_map(|(mut c, no_uris, own_serial)| {
 						if let (true, Some(idp)) = (no_uris, c.crl.idp.as_mut()) {
 							idp.uris.clear();
+						}
+						// a listed certificate may bear the number the issuer's own certificate bears (serial
+						// numbers are unique per issuer, and the issuer's was given out by its parent)
+						if own_serial {
+							if let (Some(s), Some(e)) = (c.issuer.spec.serial.clone(), c.crl.revoked.first_mut()) {
+								e.serial = s;
+							}
 						}
 						c
 					})
